@@ -248,6 +248,12 @@ impl DpMaster<'_> {
             CycleState::CycleCompleted => -1,
         }
     }
+
+    /// Non-destructive copy of the events `take_last_events()` would return
+    /// (verification hook, only compiled with `--cfg profirust_verif`; does not change behaviour).
+    pub fn verif_last_events(&self) -> DpEvents {
+        self.state.last_events.clone()
+    }
 }
 
 impl<'a> crate::fdl::FdlApplication for DpMaster<'a> {
